@@ -24,3 +24,23 @@ package conditions
 //@ func BoolToCondition
 //@   transparent
 //@   ensures result == "True" <==> value
+//@
+//@ func NewExtendedDaemonSetReplicaSetCondition
+//@   transparent
+//@
+//@ func UpdateExtendedDaemonSetReplicaSetStatusCondition
+//@   requires status != nil
+//@   modifies status.Conditions, elems(status.Conditions)
+//@   let idx = old(GetIndexForConditionType(status, t))
+//@   ensures existing-kept-in-place: idx >= 0 ==> status.Conditions == old(status.Conditions)
+//@             && status.Conditions[idx].Type == t && status.Conditions[idx].Status == conditionStatus
+//@   ensures appended-when-true: idx < 0 && (conditionStatus == "True" || writeFalseIfNotExist) ==>
+//@             len(status.Conditions) == old(len(status.Conditions)) + 1
+//@             && status.Conditions[old(len(status.Conditions))].Type == t
+//@             && status.Conditions[old(len(status.Conditions))].Status == conditionStatus
+//@   ensures untouched-when-false-and-absent: idx < 0 && !(conditionStatus == "True" || writeFalseIfNotExist) ==> status.Conditions == old(status.Conditions)
+//@   ensures backing: root(status.Conditions) == old(root(status.Conditions)) || freshroot(status.Conditions)
+//@   ensures other-entries-kept: forall i int :: 0 <= i && i < old(len(status.Conditions)) && i != idx ==>
+//@             status.Conditions[i].Type == old(status.Conditions[i].Type) && status.Conditions[i].Status == old(status.Conditions[i].Status)
+//@             && status.Conditions[i].LastTransitionTime.Time == old(status.Conditions[i].LastTransitionTime.Time)
+//@             && status.Conditions[i].LastUpdateTime.Time == old(status.Conditions[i].LastUpdateTime.Time)
